@@ -21,7 +21,15 @@ RULE = ("grammars: (a) generator biased to LL(1) (distinct leading terminals, at
         "followed by a nullable symbol that has foreign followers' (E->s S|t T; S->X N a; T->N b; X->eps|b q; N->n|eps "
         "with random names, order of alternatives, extra nullable links, LL(1) and non-LL(1) members), chains of 'last symbol' FOLLOW dependencies in random key order, LL(1) grammars with one injected conflict (FIRST/FIRST, FIRST/FOLLOW, two nullable alternatives); (c) the general "
         "C01 generator (common prefixes, ambiguity) for the clause 'whenever is_ambiguous() is False'; never left "
-        "recursive (independent check).  Every grammar is built with smart_factorization False and True.  Inputs per "
+        "recursive (independent check); (d) LL(1) grammars in which one alternative got an adjacent sibling with a common prefix so "
+        "that the left-factored grammar is LL(1) (prefix of one terminal: the shape smart_factorization undoes, the two settings "
+        "then build different tables; or longer / starting with a non-terminal).  Every case carries a PROGRAM over two parser "
+        "objects that are constructed from ONE productions dict with smart_factorization False and True (random order; one after "
+        "the other, both first and interleaved, the second in the middle of the first one's life, or the first one re-built at the "
+        "end): is_ambiguous() is asked right after construction, between parse() calls (after accepted and after rejected texts) "
+        "and at the end, every input is parsed once and some again (one of them twice in a row) on each object, one or two "
+        "parse(text, start_symbol_name=<a symbol>) calls in between (the debugging aid must not redirect later calls), every returned "
+        "tree is taken apart by the caller before the next call.  Inputs per "
         "grammar: sampled sentences, sentences with one token inserted/deleted/replaced, random and short token strings; "
         "membership decided by an Earley recogniser, the expected tree by an independent enumeration of derivations.  "
         "Non-trivial = distinct case, both constructors succeed, is_ambiguous() False for at least one setting, the grammar has a "
@@ -32,13 +40,19 @@ TRUSTED_BASE = [
     "GrammarError checks of _verify_grammar_structure_part1 are outside the model; the model-side validator wf_grammar "
     "(keys distinct and no terminals, rules stored under their own symbol, only known symbols, start symbol is a key, "
     "$END$ is a terminal) is evaluated on every built grammar by C02.Run and must be true (it is the hypothesis of the theorems)",
+    "a parser OBJECT is a parser VALUE in the model (C02/Session.v: the methods take the parser and hand it back unchanged, "
+    "parse_does_not_change_tables; session_history_independent: every observation of a program equals the one a never-used object "
+    "gives).  That the implementation's objects have no other state (parse_table, prods_map, tokenizer, the productions dict are "
+    "left as they were found by parse(), is_ambiguous() and by a second constructor call) is not proved: it is what the per-run "
+    "correspondence of whole programs checks",
     "ll1_reject / parse_returns_derivation import C01.Props.parse_sound_constructor (proved in coq/C01 for every parser the "
     "constructor model accepts, checked by C01's own run); hyps_ok is still evaluated by C02.Run on every grammar as a cross-check",
 ]
 ASSUMPTIONS = ["grammars use plain productions (templates are C05's subject)",
                "grammars are not left recursive (C03's subject); the generator filters with an independent check"]
 MODELLED = ("ak/llparser.py: _get_nullables, _calc_first_sets, _calc_follow_sets, _make_llone_table, is_ambiguous "
-            "(coq/LLP/Table.v), together with the shared models of factorization, recursion check and the parse loop")
+            "(coq/LLP/Table.v), together with the shared models of factorization, recursion check and the parse loop; "
+            "programs of constructor / is_ambiguous / parse calls on two objects built from one productions dict (coq/C02/Session.v)")
 
 
 # ------------------------------------------------------------------ reference: derivation trees (independent)
@@ -292,6 +306,45 @@ def gen_one_conflict(rng):
     return gen_follow_family(rng)
 
 
+def gen_common_prefix(rng):
+    """an LL(1) grammar in which one alternative got an adjacent sibling with a common prefix, chosen so that the
+    LEFT-FACTORED grammar is LL(1) (independent check): not LL(1) as written, conflict-free once the constructor has
+    factorized it.  Prefix of one terminal (the shape smart_factorization undoes again, so the two settings build
+    different tables from the one productions dict) or longer / starting with a non-terminal."""
+    for _ in range(600):
+        g = gen_ll1_candidate(rng)
+        p = _plain(g)
+        if L.ref_left_recursive(p) or not L.ref_is_ll1(p, g["start"]):
+            continue
+        cands = [(nt, k) for nt, alts in p.items() for k, a in enumerate(alts) if a]
+        if not cands:
+            continue
+        nt, k = rng.choice(cands)
+        alts = p[nt]
+        alt = alts[k]
+        j = rng.randint(1, len(alt))
+        if alt[0] in g["terms"] and rng.random() < 0.6:
+            j = 1
+        tail2 = tuple((rng.choice(g["terms"]) if rng.random() < 0.7 else rng.choice(g["nts"]))
+                      for _ in range(rng.randint(0, 2)))
+        new = alt[:j] + tail2
+        if new in alts or tail2 == alt[j:]:
+            continue
+        z = rng.choice([n for n in NT_POOL if n not in g["nts"]])
+        fact = dict(p)
+        fact[nt] = alts[:k] + [alt[:j] + (z,)] + alts[k + 1:]
+        fact[z] = [alt[j:], tail2]
+        if L.ref_left_recursive(fact) or not L.ref_is_ll1(fact, g["start"]):
+            continue
+        prods = dict(p)
+        prods[nt] = alts[:k] + ([alt, new] if rng.random() < 0.5 else [new, alt]) + alts[k + 1:]
+        g2 = _mk(g["nts"], g["terms"], prods, g["start"])
+        if L.ref_left_recursive(_plain(g2)) or _has_duplicate_alts(g2):
+            continue
+        return g2
+    return gen_ll1_candidate(rng)
+
+
 def _has_duplicate_alts(g):
     return any(len(set(map(tuple, alts))) != len(alts) for _, alts in g["prods"])
 
@@ -316,13 +369,15 @@ def gen_inputs(rng, g, n_base=13, n_short=7):
 
 
 # ------------------------------------------------------------------ programs over two parser objects
-# op = ["build", w] | ["amb", w] | ["parse", w, i]     (w: 0 = smart_factorization False, 1 = True; i: index into inputs)
+# op = ["build", w] | ["amb", w] | ["parse", w, i] | ["parse_from", w, i, s]
+#      (w: 0 = smart_factorization False, 1 = True; i: index into inputs; s: parse(text, start_symbol_name=s))
 N_AGAIN = 5       # inputs parsed a second time on every object
 
 
-def _life(rng, w, n, amb_p=0.5):
+def _life(rng, w, n, nts, amb_p=0.5):
     """one object's use: every input once, is_ambiguous() asked in between, then some inputs AGAIN (shuffled, one of
-    them twice in a row), is_ambiguous() at the end."""
+    them twice in a row), is_ambiguous() at the end; in between one or two parse(text, start_symbol_name=<some symbol>)
+    calls (the debugging aid must not redirect the parse() calls that follow)."""
     ops = [["amb", w]]
     order = list(range(n))
     if rng.random() < 0.3:
@@ -342,6 +397,9 @@ def _life(rng, w, n, amb_p=0.5):
             ops.append(["amb", w])
     if not again:
         ops.append(["amb", w])
+    if n:
+        for _ in range(rng.randint(1, 2)):
+            ops.insert(rng.randint(1, len(ops) - 1), ["parse_from", w, rng.randrange(n), rng.choice(nts)])
     return ops
 
 
@@ -354,7 +412,7 @@ def _interleave(rng, a, b):
     return out
 
 
-def make_prog(rng, n):
+def make_prog(rng, n, nts):
     """a program: both objects are built from the one productions dict, in random order, one after the other's life
     ('seq'), both first ('interleave'), the second in the middle of the first one's life ('late'), or the first one
     re-built after everything else ('rebuild'); every object is asked is_ambiguous() right after construction, between
@@ -362,7 +420,7 @@ def make_prog(rng, n):
     a = rng.randint(0, 1)
     b = 1 - a
     mode = rng.choice(["seq", "interleave", "late", "rebuild"])
-    la, lb = _life(rng, a, n), _life(rng, b, n)
+    la, lb = _life(rng, a, n, nts), _life(rng, b, n, nts)
     tail = [["amb", a]]
     if n:
         tail += [["parse", a, rng.randrange(n)], ["amb", a]]
@@ -389,18 +447,19 @@ def _prog(case):
     if case.get("prog") is not None:
         return case["prog"]
     import random
-    return make_prog(random.Random(20261001 + len(case["inputs"])), len(case["inputs"]))
+    return make_prog(random.Random(20261001 + len(case["inputs"])), len(case["inputs"]), case["g"]["nts"])
 
 
 def gen_cases(rng, tier):
     thorough = tier == "thorough"
     n_ll1, n_family, n_general = (2400, 400, 700) if thorough else (300, 60, 100)
     n_chain, n_conflict = (400, 600) if thorough else (50, 80)
+    n_prefix = 500 if thorough else 60
     cases = []
 
     def add(g, src, diag):
         inputs = gen_inputs(rng, g)
-        cases.append({"g": g, "inputs": inputs, "diag": diag, "src": src, "prog": make_prog(rng, len(inputs))})
+        cases.append({"g": g, "inputs": inputs, "diag": diag, "src": src, "prog": make_prog(rng, len(inputs), g["nts"])})
     got = 0
     tries = 0
     while got < n_ll1 and tries < n_ll1 * 60:
@@ -418,6 +477,8 @@ def gen_cases(rng, tier):
         add(gen_follow_chain(rng), "chain", thorough)
     for _ in range(n_conflict):
         add(gen_one_conflict(rng), "conflict", thorough)
+    for _ in range(n_prefix):
+        add(gen_common_prefix(rng), "prefix", thorough)
     got = 0
     while got < n_general:
         g = L.gen_grammar(rng, allow_leftrec=0.05)
@@ -484,7 +545,7 @@ def impl_run(case):
                 out.append(["built", SX.exc_name(e)])
             continue
         p = objs[w]
-        if p is None or (op[0] == "parse" and not 0 <= op[2] < len(texts)):
+        if p is None or (op[0] != "amb" and not 0 <= op[2] < len(texts)):
             out.append(["none"])
         elif op[0] == "amb":
             try:
@@ -495,7 +556,10 @@ def impl_run(case):
                 out.append(["amb", SX.exc_name(e)])
         else:
             try:
-                t = p.parse(texts[op[2]], do_cleanup=False)
+                if op[0] == "parse_from":
+                    t = p.parse(texts[op[2]], do_cleanup=False, start_symbol_name=op[3])
+                else:
+                    t = p.parse(texts[op[2]], do_cleanup=False)
                 out.append(["parse", "ok", L.tree_obs(t)])
                 _clobber(t)
             except BaseException as e:  # noqa
@@ -515,6 +579,8 @@ def coq_op(op):
         return f"OBuild {w}"
     if op[0] == "amb":
         return f"OAmb {w}"
+    if op[0] == "parse_from":
+        return f"OParseFrom {w} {int(op[2])}%nat {L.coq_sym(op[3])}"
     return f"OParse {w} {int(op[2])}%nat"
 
 
@@ -573,7 +639,7 @@ def expected_sx(case, obs):
         else:
             vals.append(SX.err(ctor[w]))
     diag = [_diag_sx(d) for d in obs["diag"]] if case.get("diag") else []
-    return SX.dumps([ops, vals, diag])
+    return SX.dumps([ops, vals[0], vals[1], diag])
 
 
 def in_model(case, obs):
@@ -627,6 +693,7 @@ def oracle(case, obs):
 
     per_setting = {0: {}, 1: {}}       # smart value -> input index -> set of results over all objects and moments
     amb_setting = {0: set(), 1: set()}
+    from_setting = {0: {}, 1: {}}
     for w, life in _lives(case, obs):
         tag = f"smart_factorization={bool(w)}"
         if len(life[0][1]) != 1:
@@ -653,6 +720,14 @@ def oracle(case, obs):
             if o[0] != "parse":
                 continue
             n_parsed += 1
+            if op[0] == "parse_from":
+                # parse(text, start_symbol_name=s): the property says nothing about the fragment's verdict; the same call
+                # must give the same result at every moment
+                k2 = (op[2], op[3])
+                from_setting[w].setdefault(k2, [])
+                if o[1:] not in from_setting[w][k2]:
+                    from_setting[w][k2].append(o[1:])
+                continue
             i = op[2]
             inp = case["inputs"][i]
             toks = [t for t, _ in inp]
@@ -693,6 +768,11 @@ def oracle(case, obs):
                 out.append(("parse-history-dependent", f"{desc} {tag}: {[t for t, _ in case['inputs'][i]]} gave "
                             f"{results[0][1]} at one moment and {results[1][1]} at another"))
                 break
+        for (i, sym), results in from_setting[w].items():
+            if len(results) > 1:
+                out.append(("parse-history-dependent", f"{desc} {tag}: {[t for t, _ in case['inputs'][i]]} parsed with "
+                            f"start_symbol_name={sym!r} gave {results[0]} at one moment and {results[1]} at another"))
+                break
     # both settings conflict-free => identical verdicts (follows from the above; reported separately for readability)
     if amb_setting[0] == {False} and amb_setting[1] == {False}:
         for i in sorted(set(per_setting[0]) & set(per_setting[1])):
@@ -719,7 +799,7 @@ def _first_answers(case, obs):
             res[w] = life[0][1][1]
             continue
         ambs = [o[1] for op, o in life[1:] if op[0] == "amb"]
-        parses = [o for op, o in life[1:] if o[0] == "parse"]
+        parses = [o for op, o in life[1:] if op[0] == "parse" and o[0] == "parse"]
         res[w] = (ambs[0] if ambs else None, parses)
     return res
 
@@ -761,9 +841,9 @@ def _restrict(case, keep):
     idx = {i: k for k, i in enumerate(keep)}
     prog = []
     for op in _prog(case):
-        if op[0] == "parse":
+        if op[0] in ("parse", "parse_from"):
             if op[2] in idx:
-                prog.append(["parse", op[1], idx[op[2]]])
+                prog.append([op[0], op[1], idx[op[2]]] + list(op[3:]))
         else:
             prog.append(list(op))
     return dict(case, inputs=[case["inputs"][i] for i in keep], prog=prog)
@@ -795,15 +875,21 @@ def shrink_candidates(case):
 
 TECHNIQUE = ("Coq proof (fixpoint iterations shown sound by invariant and complete by 'closed + enough fuel'; table by "
              "membership characterisation; big-step simulation of the parser's stack machine on a derivation tree) over the "
-             "hand-written Gallina model coq/LLP + per-run correspondence (vm_compute vs implementation, both "
-             "smart_factorization values) + independent LL(1)/Earley/derivation-enumeration oracle")
+             "hand-written Gallina model coq/LLP + per-run correspondence (vm_compute vs implementation) of whole programs over two "
+             "parser objects (both smart_factorization values, one productions dict; is_ambiguous() and parse() at many moments) "
+             "+ independent LL(1)/Earley/derivation-enumeration oracle")
 LEVEL_TEXT = ("Partial.  Full theorems (model level, all grammars accepted by the shape validator wf_grammar, all tokens): "
               "nullable_exact, first_exact, follow_exact (the three fuelled fixpoints of _get_nullables/_calc_first_sets/"
               "_calc_follow_sets equal the inductive Nullable/First/Follow; fixpoints_reached: the fuel suffices), predict_exact, "
               "table_complete, table_sound, is_ambiguous_spec (False iff no cell holds two rules), ll1_iff_not_ambiguous (the table "
               "of a grammar is conflict-free iff that grammar is LL(1)), ll1_reject + parse_returns_derivation (a non-sentence of the "
               "USER's grammar is never accepted, an accepted text is a sentence and the tree its derivation; for any table, both "
-              "smart values; by C01.parse_sound_constructor, not re-proved).  Partial: ll1_reported_partial / "
+              "smart values; by C01.parse_sound_constructor, not re-proved); at any moment of an object's life (model of programs, "
+              "C02/Session.v): parse_does_not_change_tables, is_ambiguous_does_not_change_tables, session_history_independent, "
+              "is_ambiguous_any_moment, parse_any_moment, objects_stay_as_constructed, built_object_answers (all trivial in the model, "
+              "where a parser is a value: they say what the correspondence of programs checks about the implementation's objects), "
+              "ll1_reported_any_moment and ll1_complete_any_moment (the partial theorems below lifted to every moment of every "
+              "program).  Partial: ll1_reported_partial / "
               "ll1_reported_no_common_prefix (LL(1) as written => is_ambiguous() False) only when the factorization is the identity "
               "(factorization_identity: no two adjacent alternatives with the same first symbol), for other grammars only "
               "ll1_reported_factorized (conflict-free iff the FACTORIZED grammar is LL(1)); ll1_complete_partial + "
@@ -812,7 +898,8 @@ LEVEL_TEXT = ("Partial.  Full theorems (model level, all grammars accepted by th
               "(ll1_reported_statement, ll1_complete_statement, c02_statement): the same for factorized grammars (needs "
               "'factorization preserves LL(1)' and the un-splicing of suffix nodes) and 'a non-sentence ends in ParsingError' "
               "(termination, C03).  Those clauses are tested on every run by the correspondence and the oracle "
-              "(both smart values, members and non-members).")
+              "(both smart values, members and non-members, at every moment of the generated programs: oracle signatures "
+              "is-ambiguous-changed, parse-history-dependent beside the language ones).")
 LEVEL_NOTE = ("Trusted: Coq kernel + vm_compute; fidelity of the hand model coq/LLP (checked by correspondence on every run, incl. the "
               "internal nullable/FIRST/FOLLOW sets and the table in the thorough tier); wf_grammar is "
               "evaluated on every generated grammar (translation validation of the theorems' hypothesis); the tokenizer; the harness.")
